@@ -173,7 +173,36 @@ type op struct {
 }
 
 func (o op) String() string {
-	return fmt.Sprintf("%s@%s(a%d t%d k%d amt=%s val=%s n=%d s=%d %v)", o.Kind, o.I, o.A, o.T, o.K, o.Amt, o.Val, o.N, o.S, o.Over)
+	var arg string
+	switch o.Kind {
+	case "addbal", "subbal", "setbal":
+		arg = fmt.Sprintf("a%d,%s", o.A, o.Amt)
+	case "addtok", "subtok", "settok":
+		arg = fmt.Sprintf("a%d,t%d,%s", o.A, o.T, o.Amt)
+	case "nonce", "credits":
+		arg = fmt.Sprintf("a%d,%d", o.A, o.N)
+	case "code":
+		arg = fmt.Sprintf("a%d,code%d", o.A, o.S)
+	case "state":
+		arg = fmt.Sprintf("a%d,k%d,%s", o.A, o.K, o.Val)
+	case "create":
+		arg = fmt.Sprintf("a%d,over=%v", o.A, o.Over)
+	case "suicide":
+		arg = fmt.Sprintf("a%d", o.A)
+	case "log":
+		arg = fmt.Sprintf("a%d,topics=%d,%s", o.A, o.K, o.Val)
+	case "refund", "subrefund":
+		arg = fmt.Sprint(o.N)
+	case "preimage":
+		arg = fmt.Sprintf("k%d", o.K)
+	case "prepare":
+		arg = fmt.Sprintf("tx%d,%d", o.K, o.S)
+	case "revert":
+		arg = fmt.Sprintf("#%d", o.S)
+	case "commit":
+		arg = fmt.Sprintf("reopen%d", o.S)
+	}
+	return fmt.Sprintf("%s.%s(%s)", o.I, o.Kind, arg)
 }
 
 var opKinds = func() []string {
@@ -974,7 +1003,7 @@ func runMachine(t *rapid.T, mode int) {
 		case "copy":
 			born = mc.doCopy(x, o)
 			ok = born != nil
-		case "ir":
+		case "ir": // in flat-KV histories "ir" therefore reads: IntermediateRoot, Commit, reopen
 			ok = irBoth(x, o)
 			// flat-KV reads go to the disk and ignore pending (finalised, uncommitted) writes; the application
 			// never touches a state between IntermediateRoot and Commit, and neither does this generator
@@ -1041,7 +1070,7 @@ func runMachine(t *rapid.T, mode int) {
 	if mc.ntCopyMut {
 		vstat.Label("copy_of_dirty_token_account_then_mutated")
 	}
-	if cache > 0 {
+	if cache > 0 && mode == modeFlatKV {
 		vstat.Label("kv_cache_wal")
 	}
 	if mc.ntRevertTok || mc.ntRevertSui || mc.ntCopyMut {
